@@ -653,7 +653,17 @@ func (m *Manager) persistState() error {
 		return err
 	}
 
-	return os.WriteFile(m.stateFile, data, 0600)
+	// Write to a temporary file and rename it into place so that a process
+	// that dies while saving leaves either the previous or the new state.
+	tempFile := m.stateFile + ".tmp"
+	if err := os.WriteFile(tempFile, data, 0600); err != nil {
+		return err
+	}
+	if err := os.Rename(tempFile, m.stateFile); err != nil {
+		os.Remove(tempFile)
+		return err
+	}
+	return nil
 }
 
 // LoadState loads persisted state from disk.
